@@ -613,7 +613,7 @@ def _textdiff(want, got):
             f"got ...{got[max(0, i - 30):i + 60]!r} (lengths {len(want)}/{len(got)})")
 
 
-_ISOLATED = {}  # (template id, locale) -> bool, per worker process
+_ISOLATED = {}  # (context, template id, locale) -> bool, per worker process
 
 
 def _breaks(text):
@@ -649,32 +649,40 @@ def isolate_cause(case, pieces, workdir):
     for p in pieces:
         if p["kind"] == "var" and _breaks(p["text"]):
             culprits.add(f"var-line:{p['style']}:{_value_feature(p['text'])}")
-    ids = set()
+    occ = set()  # (context, id): context = innermost enclosing raw-walked construct of the occurrence
 
-    def walk(b):
+    def walk(b, ctx_):
         for s in b:
-            ids.add(s[0])
+            occ.add((ctx_, s[0]))
             if len(s) > 1:
-                walk(s[1])
-                walk(s[2])
+                inner = {"group": "group", "group_redirect": "group", "subshell": "subshell"}.get(s[0], ctx_)
+                if s[0] in ("comsub_block", "nested_func", "nested_func_kw"):
+                    inner = "top"  # parsed by process_scope again
+                walk(s[1], inner)
+                walk(s[2], inner)
     for f in case["funcs"]:
-        walk(f["body"])
+        walk(f["body"], "top")
     loc = case["locale"]
-    todo = sorted(i for i in ids if (i, loc) not in _ISOLATED)
+    wrap = {"top": "%s", "group": "{\n%s\n}", "subshell": "(\n%s\n)"}
+    todo = sorted((c, i) for c, i in {(c, i) for _, i in occ for c in wrap} if (c, i, loc) not in _ISOLATED)
     if todo:
         script = []
-        for i in todo:
+        for k, (c, i) in enumerate(todo):
             src = LEAF[i] if i in LEAF else NEST[i].replace("%N", "0").replace("%B", ":")
-            script.append(f"( eval {q('function vf_x () {' + chr(10) + src + chr(10) + '}')} 2>/dev/null; "
-                          f"printf '%s\\0' {i}; declare -f vf_x 2>/dev/null; printf '\\0' )")
+            d = q("function vf_x () {\n" + wrap[c] % src + "\n}")
+            script.append(f"( __d={d}; if ( eval \"$__d\" ) >/dev/null 2>&1; then eval \"$__d\"; fi; "
+                          f"printf '%s\\0' {k}; declare -f vf_x 2>/dev/null; printf '\\0' )")
         r = run_bash("\n".join(script) + "\n", locale=loc, cwd=workdir)
         parts = r.stdout.split(b"\0")
         for k in range(0, len(parts) - 1, 2):
             txt = parts[k + 1].decode("utf8")
-            _ISOLATED[(parts[k].decode(), loc)] = bool(txt) and _breaks(txt)
-    for i in sorted(ids):
-        if _ISOLATED.get((i, loc)):
+            c, i = todo[int(parts[k])]
+            _ISOLATED[(c, i, loc)] = bool(txt) and _breaks(txt)
+    for c, i in sorted(occ):
+        if _ISOLATED.get(("top", i, loc)):
             culprits.add("stmt:" + i)
+        elif c != "top" and _ISOLATED.get((c, i, loc)):
+            culprits.add(f"stmt-in-{c}:{i}")
     if not culprits:
         sel = _selection_disagreement(case, pieces)
         if sel:
